@@ -10,6 +10,7 @@ PROP = {
              "request must be admitted'. Non-trivial: some request is refused while the quota is full and a later one is admitted after a release. "
              "distinct = canonical JSON of config+history"),
     "assumptions": [
+        "unit TestHeldAtStateOperations: requests, responses and proxy-error reports are stopped at their k-th shared-state operation boundary (hooks state.before/after:<op>) while other transactions run and collector passes happen; a stall stays below one second of virtual time in all, slots live for at least two; judged: no panic, every transaction returns, admitted-not-ending-surely-unexpired transactions never exceed the maximum, and after everything has ended and expired a new transaction is admitted (a refusal while something is held is not judged)",
         "request_expiration_sec and gc_interval_sec are each left out in a quarter of the configurations; the documented defaults (60 s, 30 s) are then the expected values",
         "half of the configurations add an independent fixed-window quota that never refuses (100000 per minute), consulted by a second Limiter behind or in front of the concurrency Limiter: every way a transaction ends must still free the concurrency slot",
         "in-memory shared state only; cluster liveness (multi-gateway) is not modelled",
@@ -17,6 +18,7 @@ PROP = {
         "transaction ids are unique per transaction, as HAProxy's unique-id guarantees",
     ],
     "units": [
+        {"pkg": "c02", "test": "TestHeldAtStateOperations", "quick": 600, "thorough": 12000, "shards": 8, "quick_shards": 2},
         {"pkg": "c02", "test": "TestConcurrentQuotaHistories", "quick": 500, "thorough": 4000, "shards": 16},
         {"pkg": "c02", "test": "TestConcurrentBursts", "quick": 80, "thorough": 800, "shards": 8},
         {"pkg": "c02", "test": "TestRegressionFixedDefects", "kind": "plain"},
@@ -25,6 +27,6 @@ PROP = {
     "level_text": ("generated histories of requests, responses, early answers, proxy errors, duplicates, clock advances and bursts are run through Stream.ExecuteFlow / Stream.OnError; "
                    "after every step the number of admitted, un-ended, unexpired transactions is compared with the maximum and every sequential verdict with the set model; "
                    "a final probe shows the quota is free again. Search, not proof"),
-    "level_note": "needs hook H1 (virtual clock) and H2 is not required; burst interleavings are whatever the Go scheduler produces",
+    "level_note": "needs the hooks of commit 82f82ff for the held-transaction unit; needs hook H1 (virtual clock) and H2 is not required; burst interleavings are whatever the Go scheduler produces",
     "design_ref": "DESIGN.md section 2, C02",
 }
